@@ -22,7 +22,34 @@ def check(rr) -> list:
     out += C.check_client_values(rr)
     out += C.check_observations(rr)
     out += C.check_body_counts(rr)
+    out += stuck_tasks(rr)
     return C._dedup(out)
+
+
+def stuck_tasks(rr) -> list:
+    """No task waits forever: C07 programs cancel nothing, so once every
+    client call has returned and the system is idle, no worker may still
+    hold a started or delayed task or an open mailbox."""
+    out = []
+    snap = rr.idle_snapshot
+    if snap is None or C.hung(rr):
+        return out
+    for wname, w in snap['workers'].items():
+        if w['tasks']:
+            out.append(C.V('TASK_STUCK', 'worker.tasks',
+                           f'{wname} still holds started task(s) '
+                           f'{[t[0] for t in w["tasks"]]} at idle '
+                           f'quiescence although every client call '
+                           f'returned'))
+        if w['delayed']:
+            out.append(C.V('TASK_STUCK', 'worker.delayed',
+                           f'{wname} still holds delayed task(s) '
+                           f'{[t[0] for t in w["delayed"]]}'))
+        if w['mailboxes']:
+            out.append(C.V('TASK_STUCK', 'worker.mailboxes',
+                           f'{wname} still holds mailbox(es) '
+                           f'{w["mailboxes"]}'))
+    return out
 
 
 def client_errors(rr) -> list:
